@@ -53,15 +53,24 @@ func (s *Sched) acquire(objVC VC) {
 
 // HBRelease / HBAcquire let harness-level objects (proxies, fakes) contribute
 // happens-before edges: state is an opaque per-object clock holder.
-type HBClock struct{ vc VC }
+type HBClock struct {
+	vc VC
+	ep uint64
+}
 
 func (h *HBClock) Release() {
 	if s := active; s != nil {
+		if h.ep != execEpoch {
+			h.ep, h.vc = execEpoch, nil
+		}
 		s.release(&h.vc)
 	}
 }
 func (h *HBClock) Acquire() {
 	if s := active; s != nil {
+		if h.ep != execEpoch {
+			h.ep, h.vc = execEpoch, nil
+		}
 		s.acquire(h.vc)
 	}
 }
